@@ -319,6 +319,19 @@ def _basis_shapes(tier, nmax, lset, four=False):
     return out
 
 
+def _combination_shapes(trailing):
+    """features that only matter TOGETHER: a generalized contraction (several segments, permuted component convention) that is a
+    d shell (its spherical form is a genuinely rectangular 5 x 6 transformation), next to an ordinary shell, on every route -
+    spherical, each mixed pattern, and a rectangular linear combination over the mixed basis"""
+    shells = [dict(l=2, M=2, conv="perm"), dict(l=1, M=1)]
+    out = [dict(shells=shells, method="spherical", trailing=trailing), dict(shells=shells[::-1], method="spherical", trailing=trailing)]
+    for pat in (["spherical", "cartesian"], ["cartesian", "spherical"], ["spherical", "spherical"]):
+        out.append(dict(shells=shells, method="mix", types=pat, trailing=trailing))
+    out.append(dict(shells=shells, method="lincomb", types=["spherical", "cartesian"], trailing=trailing, rect=True))
+    out.append(dict(shells=shells[::-1], method="lincomb", types=["cartesian", "spherical"], trailing=trailing, rect=True))
+    return out
+
+
 class AssemblyBase:
     sparse = True
     relation = "sym"
@@ -368,6 +381,7 @@ class TwoSymm(AssemblyBase):
         for sp in SPECIAL:
             out.append(dict(shells=[dict(l=1, M=1), dict(l=0, M=2)], method="lincomb", types=["cartesian", "cartesian"], trailing=[], rect=False, special=sp))
             out.append(dict(shells=[dict(l=1, M=1), dict(l=0, M=1)], method="lincomb", types=["spherical", "cartesian"], trailing=[2], rect=False, special=sp))
+        out += _combination_shapes([])
         return out
 
     def run(self, shape, M):
@@ -459,6 +473,12 @@ class TwoAsymm(AssemblyBase):
             out.append(dict(a=sa, b=sb, method="lincomb", ta=["spherical"] * na, tb=(["cartesian", "spherical"] * 2)[:nb], trailing=[], tr=[True, True]))
             out.append(dict(a=sa, b=sb, method="lincomb", ta=["cartesian"] * na, tb=["cartesian"] * nb, trailing=[2], tr=[False, True]))
             out.append(dict(a=sa, b=sb, method="lincomb", ta=["spherical"] * na, tb=["spherical"] * nb, trailing=[], tr=[True, False]))
+        # features that only matter together (see _combination_shapes): a generalized d shell on one side, an ordinary d shell on the other
+        ga, gb = [dict(l=2, M=2, conv="perm"), dict(l=1, M=1)], [dict(l=0, M=2), dict(l=2, M=1)]
+        out.append(dict(a=ga, b=gb, method="spherical", trailing=[]))
+        out.append(dict(a=ga, b=gb, method="mix", ta=["spherical", "cartesian"], tb=["cartesian", "spherical"], trailing=[]))
+        out.append(dict(a=gb, b=ga, method="mix", ta=["cartesian", "spherical"], tb=["spherical", "spherical"], trailing=[]))
+        out.append(dict(a=ga, b=gb, method="lincomb", ta=["spherical", "cartesian"], tb=["cartesian", "spherical"], trailing=[], tr=[True, True]))
         for sp, sp2 in zip(SPECIAL, SPECIAL[1:] + SPECIAL[:1]):
             out.append(dict(a=[dict(l=1, M=1)], b=[dict(l=0, M=2), dict(l=1, M=1)], method="lincomb", ta=["cartesian"], tb=["cartesian", "spherical"], trailing=[],
                             tr=[True, True], special=sp, special2=sp2))
@@ -534,6 +554,7 @@ class OneIndex(AssemblyBase):
             out.append(dict(shells=shells, method="lincomb", types=["spherical"] * n, trailing=[2], rect=True))
         for sp in SPECIAL:
             out.append(dict(shells=[dict(l=1, M=1), dict(l=0, M=2)], method="lincomb", types=["spherical", "cartesian"], trailing=[2], rect=False, special=sp))
+        out += _combination_shapes([2])
         return out
 
     def run(self, shape, M):
